@@ -14,6 +14,10 @@
 //! excludes every other borrow, guards restore the state they found.
 
 // ASSUME-FILE[assume]: selects the borrow state (reader count below the overflow point where stated).
+// ASSUME-FILE[unsafe]: `Trace` is an unsafe trait: the harness implements it for `Probe`, a type without pointers whose
+//   methods only count calls, and calls the unsafe `trace`/`trace_non_roots` of the real `GcRefCell` on it; the cell's
+//   content is read through `UnsafeCell::get` while no guard is alive.
+// ASSUME-FILE[drop]: the (empty) `Tracer` is forgotten - its queue type's drop glue is irrelevant to the contract.
 
 use super::*;
 use std::cell::Cell as StdCell;
